@@ -66,10 +66,11 @@ func typeSwitchClauses(fn *ssa.Function, x ssa.Value) []*tsClause {
 }
 
 type gctx struct {
-	fn    *ssa.Function
-	vals  map[ssa.Value]bool
-	spill map[ssa.Value]bool // locals holding a copy of the (struct-valued) clause variable
-	depth int
+	fn      *ssa.Function
+	vals    map[ssa.Value]bool
+	spill   map[ssa.Value]bool // locals holding a copy of the (struct-valued) clause variable
+	depth   int
+	rawMake bool
 }
 
 func newGctx(fn *ssa.Function, vals map[ssa.Value]bool) *gctx {
@@ -197,6 +198,19 @@ func (g *gctx) cls(v ssa.Value) string {
 		sort.Strings(keys)
 		return strings.Join(keys, "|")
 	case *ssa.MakeSlice:
+		// a slice that is stored into the clause variable is, from then on, the clause variable's value
+		if !g.rawMake {
+			for _, rf := range referrers(x) {
+				if st, ok := rf.(*ssa.Store); ok && st.Val == ssa.Value(x) {
+					g.rawMake = true
+					t := g.cls(st.Addr)
+					g.rawMake = false
+					if t == "v" {
+						return "*v"
+					}
+				}
+			}
+		}
 		// []interface{} filled with &x[i]
 		if it, ok := x.Type().Underlying().(*types.Slice); ok {
 			if _, isIface := it.Elem().Underlying().(*types.Interface); isIface {
@@ -362,6 +376,8 @@ func regionBlocks(fn *ssa.Function, body *ssa.BasicBlock, exclude []*ssa.BasicBl
 }
 
 // events lists the I/O events of a clause region in CFG order.
+var inlineDepth int
+
 func clauseEvents(fn *ssa.Function, blocks []*ssa.BasicBlock, g *gctx, role string) ([]string, []string) {
 	var ev, notes []string
 	inRegion := map[*ssa.BasicBlock]bool{}
@@ -423,6 +439,38 @@ func clauseEvents(fn *ssa.Function, blocks []*ssa.BasicBlock, g *gctx, role stri
 						}
 					}
 					ev = append(ev, lm+recv+"D("+g.callArgs(x)+")")
+				default:
+					// a clause body moved into a helper of the same package that is handed the clause variable: its
+					// events are those of the clause, with the helper's parameter standing for the clause variable
+					callee := staticCallee(&x.Call)
+					if callee == nil || callee.Blocks == nil || callee.Pkg != fn.Pkg || callee == fn || inlineDepth > 2 {
+						break
+					}
+					switch fnName(callee) {
+					case "(*p9p.encoder).encode", "(*p9p.decoder).decode", "p9p.size9p", "p9p.fields9p", "p9p.newMessage":
+						break
+					default:
+						vals := map[ssa.Value]bool{}
+						for i, a := range x.Call.Args {
+							if i < len(callee.Params) && g.cls(a) == "v" {
+								vals[callee.Params[i]] = true
+							}
+						}
+						if len(vals) == 0 {
+							break
+						}
+						inlineDepth++
+						sub := newGctx(callee, vals)
+						evs, ns := clauseEvents(callee, callee.Blocks, sub, role)
+						inlineDepth--
+						for _, e := range evs {
+							if lm != "" && !strings.HasPrefix(e, "*") {
+								e = lm + e
+							}
+							ev = append(ev, e)
+						}
+						notes = append(notes, ns...)
+					}
 				}
 			case *ssa.Store:
 				if role != "decode" {
@@ -431,7 +479,10 @@ func clauseEvents(fn *ssa.Function, blocks []*ssa.BasicBlock, g *gctx, role stri
 				// stores through the clause variable
 				tgt := g.cls(x.Addr)
 				if tgt == "v" || strings.HasPrefix(tgt, "&v.") {
-					ev = append(ev, loopMark(in)+"SET("+tgt+"="+g.cls(x.Val)+")")
+					g.rawMake = true
+					val := g.cls(x.Val)
+					g.rawMake = false
+					ev = append(ev, loopMark(in)+"SET("+tgt+"="+val+")")
 				}
 			case *ssa.BinOp:
 				if role != "size" || x.Op != token.ADD {
